@@ -480,6 +480,9 @@ type gateIn struct {
 	ch chan struct{}
 	in chan struct{} // closed when the receiver has entered the gate
 }
+
+var closedCh = func() chan struct{} { c := make(chan struct{}); close(c); return c }()
+
 type umsg struct{ N int }
 type mark struct{ ch chan struct{} }
 
@@ -716,6 +719,63 @@ func runSpawns(c SCase) (map[string]int, error) {
 			} else {
 				feat["stop-of-unknown-id"]++
 			}
+		case "churn":
+			// lookups and sends from several goroutines while the id goes through stop / respawn rounds:
+			// after a stop the id resolves to nobody, after a respawn to the new actor - whatever a
+			// lookup saw while the registry was being changed
+			if m.live || op.G < 1 || op.G > 6 || op.N < 1 || op.N > 60 {
+				continue
+			}
+			pidc := actor.NewPID(e.Address(), full)
+			for round := 0; round < op.N; round++ {
+				if err := h.spawn(op.ID, op.Child); err != nil {
+					return nil, err
+				}
+				m.calls++
+				stopLook := make(chan struct{})
+				var lw sync.WaitGroup
+				for g := 0; g < op.G; g++ {
+					lw.Add(1)
+					go func() {
+						defer lw.Done()
+						for {
+							select {
+							case <-stopLook:
+								return
+							default:
+							}
+							e.Registry.GetPID(kind, sub)
+							e.Send(pidc, gate{ch: closedCh})
+						}
+					}()
+				}
+				err := waitCh(e.Poison(pidc).Done(), "churn: stop context not done")
+				close(stopLook)
+				lw.Wait()
+				if err != nil {
+					return nil, err
+				}
+				m.stopped++
+				if p := e.Registry.GetPID(kind, sub); p != nil {
+					return nil, fmt.Errorf("op %d (churn, round %d): %s has stopped (its stop context is done) and Registry.GetPID still returns %v", oi, round, full, p)
+				}
+			}
+			// ... and a respawn is reachable: a marker sent through an old PID object arrives at the new actor
+			if err := h.spawn(op.ID, op.Child); err != nil {
+				return nil, err
+			}
+			m.live, m.calls = true, m.calls+1
+			mk := mark{make(chan struct{})}
+			e.Send(pidc, mk)
+			select {
+			case <-mk.ch:
+			case <-time.After(5 * time.Second):
+				if p := e.Registry.GetPID(kind, sub); p == nil {
+					return nil, fmt.Errorf("op %d (churn): %s was spawned again after %d stop/respawn rounds under concurrent lookups, and GetPID returns nil", oi, full, op.N)
+				}
+				return nil, fmt.Errorf("op %d (churn): %s was spawned again after %d stop/respawn rounds under concurrent lookups; a message sent to it is not delivered while GetPID names it: lookups resolve the id to a process that is gone", oi, full, op.N)
+			}
+			feat["lookups-racing-with-stop-and-respawn"]++
 		case "slowstop":
 			if !m.live {
 				continue
@@ -1030,7 +1090,7 @@ func genSpawns(t *rapid.T) SCase {
 	c := SCase{}
 	n := rapid.IntRange(1, 14).Draw(t, "ops")
 	for i := 0; i < n; i++ {
-		op := SOp{K: rapid.SampledFrom([]string{"spawn", "spawn", "spawn", "burst", "burst", "stop", "poison", "dupover", "stillborn", "slowstop", "slowkid"}).Draw(t, "k")}
+		op := SOp{K: rapid.SampledFrom([]string{"spawn", "spawn", "spawn", "burst", "burst", "stop", "poison", "dupover", "stillborn", "slowstop", "slowkid", "churn"}).Draw(t, "k")}
 
 		op.ID = rapid.IntRange(0, len(subIDs)-1).Draw(t, "id")
 		op.Child = rapid.IntRange(0, 2).Draw(t, "child") == 0
@@ -1045,6 +1105,9 @@ func genSpawns(t *rapid.T) SCase {
 			op.Poisoned = rapid.IntRange(0, 2).Draw(t, "poisoned") == 0
 		case "stillborn":
 			op.DiesIn = rapid.SampledFrom([]string{"Initialized", "Started"}).Draw(t, "dies_in")
+		case "churn":
+			op.G = rapid.IntRange(1, 4).Draw(t, "g")
+			op.N = rapid.SampledFrom([]int{5, 20, 40}).Draw(t, "rounds")
 		}
 		c.Ops = append(c.Ops, op)
 	}
